@@ -399,3 +399,79 @@ func (o *Observer) Feed(l *tok.Line) {
 		}
 	}
 }
+
+// ---------------------------------------------------------------- response parsing helpers
+
+// Toks returns the tokens of an untagged line without the leading "*" and
+// without separators.
+func Toks(l *tok.Line) []tok.Tok {
+	var t []tok.Tok
+	if len(l.Toks) == 0 {
+		return nil
+	}
+	for _, x := range l.Toks[1:] {
+		if x.Kind != tok.SP {
+			t = append(t, x)
+		}
+	}
+	return t
+}
+
+// Fetch is a parsed "* n FETCH (...)" line: item name (upper-cased, with the
+// section and partial origin, e.g. "BODY[1.MIME]<0>") -> value node.
+type Fetch struct {
+	Seq   uint32
+	Items map[string]*tok.Node
+	Order []string
+}
+
+// ParseFetch parses a FETCH data line; ok=false for any other line.
+func ParseFetch(l *tok.Line) (*Fetch, bool) {
+	if l.Tag != "*" || l.Status != "" {
+		return nil, false
+	}
+	t := Toks(l)
+	if len(t) < 3 || !strings.EqualFold(t[1].S, "FETCH") || t[1].Kind != tok.Atom {
+		return nil, false
+	}
+	n, ok := num(t[0])
+	if !ok {
+		return nil, false
+	}
+	nodes, err := tok.Tree(t[2:])
+	if err != nil || len(nodes) != 1 || !nodes[0].List {
+		return nil, false
+	}
+	f := &Fetch{Seq: n, Items: map[string]*tok.Node{}}
+	ch := nodes[0].Children
+	for i := 0; i < len(ch); {
+		if ch[i].List || ch[i].Bracket || ch[i].Tok.Kind != tok.Atom {
+			return nil, false
+		}
+		name := strings.ToUpper(ch[i].Tok.S)
+		i++
+		if i < len(ch) && ch[i].Bracket {
+			name += strings.ToUpper(ch[i].String())
+			i++
+			if i < len(ch) && !ch[i].List && ch[i].Tok.Kind == tok.Atom && strings.HasPrefix(ch[i].Tok.S, "<") {
+				name += ch[i].Tok.S
+				i++
+			}
+		}
+		if i >= len(ch) {
+			return nil, false
+		}
+		f.Items[name] = ch[i]
+		f.Order = append(f.Order, name)
+		i++
+	}
+	return f, true
+}
+
+// Num parses a decimal atom.
+func Num(n *tok.Node) (uint32, bool) {
+	if n == nil || n.List || n.Bracket {
+		return 0, false
+	}
+	return num(n.Tok)
+}
